@@ -143,7 +143,10 @@ func ruleC01Split(c *Ctx) {
 		})
 		cHead := "copy($1," + rb + "[+" + so + ":])"
 		cTail := "copy($1[+len($1) -" + eo + ":]," + rb + "[:+" + eo + "])"
-		for _, w := range []struct{ r, d string; after ssa.Instruction }{{cHead, "head piece copied out of its block", m[rHead]}, {cTail, "tail piece copied out of its block", m[rTail]}} {
+		for _, w := range []struct {
+			r, d  string
+			after ssa.Instruction
+		}{{cHead, "head piece copied out of its block", m[rHead]}, {cTail, "tail piece copied out of its block", m[rTail]}} {
 			if in := cp[w.r]; in != nil {
 				c.Guard(rule, fn, []ssa.Instruction{in}, w.d, nil, okEdge(fn, w.after, "the block was read"))
 			} else {
@@ -179,9 +182,9 @@ func ruleC01Split(c *Ctx) {
 // ---------------------------------------------------------------------------
 
 var httpStatusExceptions = map[string]string{
-	"(*replica/client.ReplicaClient).Delete":          "the confirmed tree ignores the answer of DELETE (controller/rest delete() reports per-replica transport errors only)",
-	"(*controller/client.ControllerClient).get":       "the confirmed tree decodes the body whatever the status (CLI listing helper)",
-	"(*sync/agent.Client).do":                         "",
+	"(*replica/client.ReplicaClient).Delete":    "the confirmed tree ignores the answer of DELETE (controller/rest delete() reports per-replica transport errors only)",
+	"(*controller/client.ControllerClient).get": "the confirmed tree decodes the body whatever the status (CLI listing helper)",
+	"(*sync/agent.Client).do":                   "",
 }
 
 func isHTTPExchange(in ssa.Instruction) bool {
